@@ -23,15 +23,16 @@ type Profile struct {
 	SmallCache bool
 	MaxOps     int
 	RootCBP    int  // percent of Interests that ask for the root prefix "/" with CanBePrefix
+	WChurn     int  // faces removed and added during the history; packets whose arrival face vanishes
 	Full       bool // full-stack executor: draw the number of forwarding threads
 }
 
 var (
-	ProfC01 = Profile{Name: "C01", WInterest: 5, WData: 6, WAdv: 3, WFib: 1, WCap: 0, Localhost: 8, CsOn: 40, MaxOps: 40, RootCBP: 4}
-	ProfC02 = Profile{Name: "C02", WInterest: 8, WData: 2, WAdv: 4, WFib: 3, WCap: 0, Localhost: 5, CsOn: 25, MaxOps: 40}
-	ProfC09 = Profile{Name: "C09", WInterest: 6, WData: 5, WAdv: 2, WFib: 2, WCap: 0, Localhost: 75, CsOn: 60, MaxOps: 36, RootCBP: 10}
-	ProfC08 = Profile{Name: "C08", WInterest: 6, WData: 4, WAdv: 4, WFib: 1, WCap: 1, Localhost: 15, ShortLife: true, CsOn: 70, SmallCache: true, MaxOps: 40, RootCBP: 8}
-	ProfC07 = Profile{Name: "C07", WInterest: 6, WData: 5, WAdv: 3, WFib: 1, WCap: 1, Localhost: 5, CsOn: 100, SmallCache: true, MaxOps: 40}
+	ProfC01 = Profile{Name: "C01", WChurn: 1, WInterest: 5, WData: 6, WAdv: 3, WFib: 1, WCap: 0, Localhost: 8, CsOn: 40, MaxOps: 40, RootCBP: 4}
+	ProfC02 = Profile{Name: "C02", WChurn: 1, WInterest: 8, WData: 2, WAdv: 4, WFib: 3, WCap: 0, Localhost: 5, CsOn: 25, MaxOps: 40}
+	ProfC09 = Profile{Name: "C09", WChurn: 1, WInterest: 6, WData: 5, WAdv: 2, WFib: 2, WCap: 0, Localhost: 75, CsOn: 60, MaxOps: 36, RootCBP: 10}
+	ProfC08 = Profile{Name: "C08", WChurn: 1, WInterest: 6, WData: 4, WAdv: 4, WFib: 1, WCap: 1, Localhost: 15, ShortLife: true, CsOn: 70, SmallCache: true, MaxOps: 40, RootCBP: 8}
+	ProfC07 = Profile{Name: "C07", WChurn: 1, WInterest: 6, WData: 5, WAdv: 3, WFib: 1, WCap: 1, Localhost: 5, CsOn: 100, SmallCache: true, MaxOps: 40}
 )
 
 // rawOp is drawn without looking at the history, so that rapid can delete and simplify list
@@ -205,8 +206,8 @@ func (g *genState) predictData(op Op, tok []byte) []Emission {
 	var em []Emission
 	for _, e := range matched {
 		for gf, r := range e.in {
-			gs, _ := m.face(gf)
-			if gf == op.F || r.maybe || r.exp <= m.now || (isLocalhost(op.N) && !gs.Local) {
+			gs, up := m.face(gf)
+			if !up || gf == op.F || r.maybe || r.exp <= m.now || (isLocalhost(op.N) && !gs.Local) {
 				continue
 			}
 			em = append(em, Emission{Face: gf, Kind: 'D', Tok: r.tok, Name: op.N})
@@ -284,7 +285,27 @@ func genCaseFor(p Profile) func(t *rapid.T) Case {
 		for _, op := range c.Ops {
 			m.applyTableOp(op)
 		}
-		total := p.WInterest + p.WData + p.WAdv + p.WFib + p.WCap
+		total := p.WInterest + p.WData + p.WAdv + p.WFib + p.WCap + p.WChurn
+		// faces that exist now, in ascending order (face churn removes and adds some)
+		upFaces := func() []int {
+			var u []int
+			for f := 1; f <= m.NFaces(); f++ {
+				if m.FaceIsUp(f) {
+					u = append(u, f)
+				}
+			}
+			return u
+		}
+		pickUp := func(x int) int { u := upFaces(); return u[x%len(u)] }
+		const missingFace = 99 // a face number no face of the case ever gets
+		// anyFace: an existing face, a removed one or one that never existed
+		anyFace := func(x int) int {
+			if n := m.NFaces(); x%(n+1) < n {
+				return x%(n+1) + 1
+			}
+			return missingFace
+		}
+		vanish := func(r rawOp) bool { return p.WChurn > 0 && r.G%53 == 5 && len(upFaces()) > 2 }
 		var interestOps []int // indexes of Interest ops in c.Ops
 		var dataOps []int
 		usedNames := []string{}
@@ -332,7 +353,7 @@ func genCaseFor(p Profile) func(t *rapid.T) Case {
 			k := r.Kind * total / 100
 			switch {
 			case k < p.WInterest:
-				op := Op{K: "I", F: r.A%nf + 1, HasNonce: true}
+				op := Op{K: "I", F: pickUp(r.A), HasNonce: true, Van: vanish(r)}
 				// name and flags: a pending entry (retransmission / aggregation), a cached name, a FIB prefix extension, or a literal
 				keys := pendingKeys()
 				how := r.B % 10
@@ -401,7 +422,7 @@ func genCaseFor(p Profile) func(t *rapid.T) Case {
 					op.Tok = hex.EncodeToString([]byte{byte(r.A), byte(r.F2), byte(r.G), 9})
 				}
 				if r.G%29 == 0 {
-					op.NextHop = r.C%(nf+1) + 1 // sometimes a missing face
+					op.NextHop = anyFace(r.C) // sometimes a missing or removed face
 				}
 				_, hk := m.lookupName(op)
 				key := pitKey{op.N, op.CBP, op.MBF, hk}
@@ -469,13 +490,18 @@ func genCaseFor(p Profile) func(t *rapid.T) Case {
 				}
 				idx := len(c.Ops)
 				c.Ops = append(c.Ops, op)
-				if v := m.Interest(idx, op, nil, g.predictInterest(op)); v != nil {
+				if op.Van {
+					// canonical outcome: the packet of the vanished face is dropped
+					if v := m.Vanished(op, nil, func() *Violation { return m.Interest(idx, op, nil, nil) }); v != nil {
+						panic(fmt.Sprintf("generator: the reference rejects its own prediction: %v (op %+v)", v, op))
+					}
+				} else if v := m.Interest(idx, op, nil, g.predictInterest(op)); v != nil {
 					panic(fmt.Sprintf("generator: the reference rejects its own prediction: %v (op %+v)", v, op))
 				}
 				interestOps = append(interestOps, idx)
 				usedNames = append(usedNames, op.N)
 			case k < p.WInterest+p.WData:
-				op := Op{K: "D", F: r.A%nf + 1, Var: r.G % 3}
+				op := Op{K: "D", F: pickUp(r.A), Var: r.G % 3}
 				op.Fresh = []int64{0, 1, 11, 1001, 1001}[r.E%5]
 				keys := pendingKeys()
 				how := r.B % 10
@@ -493,12 +519,17 @@ func genCaseFor(p Profile) func(t *rapid.T) Case {
 						outs = append(outs, gf)
 					}
 					sort.Ints(outs)
-					if len(outs) > 0 && r.E%6 != 0 {
+					if len(outs) > 0 && r.E%6 != 0 && m.FaceIsUp(outs[r.D%len(outs)]) {
 						op.F = outs[r.D%len(outs)]
 					}
 				case how < 7 && len(dataOps) > 0: // a repeated copy of an earlier Data
 					prev := c.Ops[dataOps[r.C%len(dataOps)]]
-					op = prev
+					if m.FaceIsUp(prev.F) {
+						op = prev
+						op.Van = false
+					} else {
+						op.N = prev.N
+					}
 				case how < 8 && len(usedNames) > 0:
 					n := comps(usedNames[r.C%len(usedNames)])
 					if r.Bool1 && len(n) > 0 {
@@ -557,9 +588,14 @@ func genCaseFor(p Profile) func(t *rapid.T) Case {
 				if p.Full && r.C%5 == 2 {
 					op.Split = 2 + r.G%3
 				}
+				op.Van = vanish(r)
 				idx := len(c.Ops)
 				c.Ops = append(c.Ops, op)
-				if v := m.Data(idx, op, nil, tok, g.predictData(op, tok)); v != nil {
+				if op.Van {
+					if v := m.Vanished(op, nil, func() *Violation { return m.Data(idx, op, nil, tok, nil) }); v != nil {
+						panic(fmt.Sprintf("generator: the reference rejects its own prediction: %v (op %+v)", v, op))
+					}
+				} else if v := m.Data(idx, op, nil, tok, g.predictData(op, tok)); v != nil {
 					panic(fmt.Sprintf("generator: the reference rejects its own prediction: %v (op %+v)", v, op))
 				}
 				dataOps = append(dataOps, idx)
@@ -573,7 +609,7 @@ func genCaseFor(p Profile) func(t *rapid.T) Case {
 						pushAdv(int64(1+r.G%90) * ms)
 					}
 					g.nonceCt++
-					again := Op{K: "I", F: r.B%nf + 1, N: target.key.Name, CBP: target.key.CBP, MBF: target.key.MBF,
+					again := Op{K: "I", F: pickUp(r.B), N: target.key.Name, CBP: target.key.CBP, MBF: target.key.MBF,
 						HasNonce: true, Nonce: g.nonceCt, Life: []int64{5, 20, 100, 600}[r.D%4]}
 					if target.key.Hint != "" {
 						again.Hints = []string{target.key.Hint}
@@ -594,9 +630,14 @@ func genCaseFor(p Profile) func(t *rapid.T) Case {
 					if emitI(again) && r.D%5 != 0 {
 						pushAdv(again.Life*ms + slack + reapTick + int64(r.E%3)*ms)
 						back := again
-						back.F = (again.F+r.C%(nf-1))%nf + 1
-						g.motifs++
-						emitI(back)
+						if u := upFaces(); len(u) > 1 {
+							back.F = u[(r.C+1)%len(u)]
+							if back.F == again.F {
+								back.F = u[(r.C+2)%len(u)]
+							}
+							g.motifs++
+							emitI(back)
+						}
 					}
 				}
 			case k < p.WInterest+p.WData+p.WAdv:
@@ -650,9 +691,9 @@ func genCaseFor(p Profile) func(t *rapid.T) Case {
 				}
 				switch r.A % 8 {
 				case 0, 1, 2, 3:
-					op = Op{K: "fibins", N: n, F: r.E%(nf+1) + 1, Cost: uint64([]int{0, 1, 1, 2, 10}[r.F2%5])}
+					op = Op{K: "fibins", N: n, F: anyFace(r.E), Cost: uint64([]int{0, 1, 1, 2, 10}[r.F2%5])}
 				case 4:
-					op = Op{K: "fibrm", N: n, F: r.E%nf + 1}
+					op = Op{K: "fibrm", N: n, F: pickUp(r.E)}
 					// prefer an existing next hop
 					var ns []string
 					for hn := range m.hops {
@@ -678,6 +719,40 @@ func genCaseFor(p Profile) func(t *rapid.T) Case {
 				}
 				c.Ops = append(c.Ops, op)
 				m.applyTableOp(op)
+			case k < p.WInterest+p.WData+p.WAdv+p.WFib+p.WChurn:
+				// face churn: a face with pending Interests or routes goes away; a new one appears
+				// (and, if the implementation re-uses face ids, inherits nothing of the old one)
+				if u := upFaces(); r.A%2 == 0 && len(u) > 2 {
+					f := u[r.B%len(u)]
+					// prefer a face that holds an in-record or is a next hop
+					var busy []int
+					for _, cand := range u {
+						for _, e := range m.pit {
+							if _, ok := e.in[cand]; ok {
+								busy = append(busy, cand)
+								break
+							}
+						}
+					}
+					if len(busy) > 0 && r.C%3 != 0 {
+						f = busy[r.D%len(busy)]
+					}
+					if r.F2%3 == 0 {
+						f = u[len(u)-1] // the face created last
+					}
+					c.Ops = append(c.Ops, Op{K: "down", F: f})
+					m.FaceDown(f)
+					if r.Bool2 && m.NFaces() < 12 {
+						// and a new face appears at once (an application restarts, a peer reconnects)
+						op := Op{K: "up", Local: r.Bool1, Link: []int{0, 0, 0, 0, 2, 1}[r.E%6]}
+						c.Ops = append(c.Ops, op)
+						m.FaceUp(FaceSpec{Local: op.Local, Link: op.Link})
+					}
+				} else if m.NFaces() < 12 {
+					op := Op{K: "up", Local: r.Bool1, Link: []int{0, 0, 0, 0, 2, 1}[r.E%6]}
+					c.Ops = append(c.Ops, op)
+					m.FaceUp(FaceSpec{Local: op.Local, Link: op.Link})
+				}
 			default:
 				op := Op{K: "cap", Cap: r.A % 5}
 				c.Ops = append(c.Ops, op)
